@@ -149,6 +149,7 @@ Proof.
     rewrite ED. rewrite map_length.
     change (length xs) with (S (S (S (S (length rest))))).
     change (map enc xs) with (enc h :: enc (Arr f1 bodies) :: enc (Arr f2 wits) :: enc (Map fa akvs) :: map enc rest).
+    cbn [is_dijkstra_block is_byron_block length]. rewrite andb_false_r.
     cbn [Nat.ltb Nat.leb Nat.eqb]. unfold shelley_path. cbn [length].
     rewrite !dec_raw_list_enc0 by assumption. rewrite !map_length, Hlen, Nat.eqb_refl. cbn [negb].
     assert (EH0 : forall len, hdr_at false false B len = hdr_size f0).
